@@ -295,6 +295,126 @@ def _registry_cases():
     return cases
 
 
+# ---- (D) acceptance sweep: every public element class with its required arguments only, then with each optional
+# argument given one well-formed value -------------------------------------------------------------------------
+def _env():
+    """a small problem holding one well-formed value for every kind of argument"""
+    e = {}
+    e["t1"], e["t2"], e["t3"] = (ps.FixedDurationTask(name=f"S{i}", duration=2, due_date=8 + i) for i in range(3))
+    e["o1"], e["o2"] = (ps.FixedDurationTask(name=f"SO{i}", duration=1, optional=True, due_date=9) for i in range(2))
+    e["w"] = ps.Worker(name="SW")
+    e["w2"] = ps.Worker(name="SW2")
+    e["t1"].add_required_resource(e["w"])
+    e["t2"].add_required_resource(e["w"])
+    e["sel1"] = ps.SelectWorkers(list_of_workers=[e["w"], e["w2"]], nb_workers_to_select=1)
+    e["sel2"] = ps.SelectWorkers(list_of_workers=[e["w"], e["w2"]], nb_workers_to_select=1)
+    e["t3"].add_required_resource(e["sel1"])
+    e["o1"].add_required_resource(e["sel2"])
+    e["buf"] = ps.NonConcurrentBuffer(name="SB", initial_level=5)
+    ps.TaskUnloadBuffer(task=e["t1"], buffer=e["buf"], quantity=1)
+    e["ind"] = ps.IndicatorFromMathExpression(name="SI", expression=e["t1"]._start + 1)
+    e["oc1"] = ps.TaskStartAt(task=e["t1"], value=1, optional=True)
+    e["oc2"] = ps.TaskStartAt(task=e["t2"], value=4, optional=True)
+    return e
+
+
+def _fresh_constraint(e, k):
+    return ps.TaskStartAfter(task=e["t3"], value=k)
+
+
+REQUIRED = {
+    "task": lambda e: e["t1"], "task_1": lambda e: e["t1"], "task_2": lambda e: e["t2"], "task_before": lambda e: e["t1"], "task_after": lambda e: e["t2"],
+    "list_of_tasks": lambda e: [e["t1"], e["t2"], e["t3"]], "list_of_optional_tasks": lambda e: [e["o1"], e["o2"]],
+    "list_of_optional_constraints": lambda e: [e["oc1"], e["oc2"]],
+    "resource": lambda e: e["w"], "list_of_resources": lambda e: [e["w"], e["w2"]], "buffer": lambda e: e["buf"],
+    "select_workers_1": lambda e: e["sel1"], "select_workers_2": lambda e: e["sel2"], "list_of_workers": lambda e: [e["w"], e["w2"]],
+    "list_of_time_intervals": lambda e: [(1, 3)], "period": lambda e: 5, "distance": lambda e: 1, "dict_time_intervals_and_bound": lambda e: {(0, 5): 2},
+    "value": lambda e: 3, "quantity": lambda e: 1, "nb_tasks_to_schedule": lambda e: 1, "condition": lambda e: e["t1"]._start > 2, "to_be_scheduled": lambda e: True,
+    "constraint": lambda e: _fresh_constraint(e, 1), "constraint_1": lambda e: _fresh_constraint(e, 1), "constraint_2": lambda e: _fresh_constraint(e, 2),
+    "list_of_constraints": lambda e: [_fresh_constraint(e, 1), _fresh_constraint(e, 2)],
+    "then_list_of_constraints": lambda e: [_fresh_constraint(e, 3)], "else_list_of_constraints": lambda e: [_fresh_constraint(e, 4)],
+    "expression": lambda e: e["t1"]._start >= 0, "indicator": lambda e: e["ind"], "target": lambda e: e["ind"],
+    "coefficients": lambda e: [1, 0, 2], "slope": lambda e: 1, "intercept": lambda e: 2, "function": lambda e: (lambda x: 2 * x), "size": lambda e: 2, "duration": lambda e: 2,
+}
+OPTIONAL = {
+    "optional": [True], "kind": None, "mode": None, "offset": [1], "start": [1], "end": [20], "time_interval": [(0, 10)], "time_interval_length": [8],
+    "nb_constraints_to_apply": [1], "nb_tasks_to_schedule": [1], "lower_bound": [0], "upper_bound": [50], "bounds": [(0, 10)], "work_amount": [1], "release_date": [1],
+    "due_date": [9], "due_date_is_deadline": [False, True], "priority": [2], "min_duration": [1], "max_duration": [4], "allowed_durations": [[1, 2]], "productivity": [2],
+    "cost": [lambda e: ps.ConstantFunction(value=3), lambda e: ps.LinearFunction(slope=1, intercept=1)], "weight": [2], "list_of_tasks": [lambda e: [e["t1"], e["t2"]]],
+    "initial_level": [4], "final_level": [3], "nb_workers_to_select": [1], "list_of_time_intervals": [[(1, 3)]], "expression": [lambda e: e["t1"]._start + 2],
+}
+# what each objective constructor needs beyond its declared model (they take their arguments from **data)
+OBJECTIVE_ARGS = {
+    "ObjectiveMaximizeIndicator": ["target"], "ObjectiveMinimizeIndicator": ["target"], "ObjectiveMaximizeResourceUtilization": ["resource"],
+    "ObjectiveMinimizeResourceCost": ["list_of_resources"], "ObjectiveMinimizeFlowtimeSingleResource": ["resource"],
+    "ObjectiveMaximizeMaxBufferLevel": ["buffer"], "ObjectiveMinimizeMaxBufferLevel": ["buffer"],
+}
+SWEEP_SKIP = {"Constraint", "TaskConstraint", "ResourceConstraint", "IndicatorConstraint", "Indicator", "Objective", "NamedUIDObject", "TaskGroup",
+              "SchedulingProblem", "SchedulingSolver", "Function"}
+# optional arguments whose combination with the minimal call is ill-formed by a documented rule
+SWEEP_ILL = {("ForceApplyNOptionalConstraints", "optional"), ("ForceScheduleNOptionalTasks", "optional"),
+             ("NonConcurrentBuffer", None), ("ConcurrentBuffer", None)}  # a buffer needs an initial or a final level
+# explicit limitation of the library (asserted in resource.py): only a constant cost can be spread over the
+# elementary workers of a cumulative worker
+SWEEP_LIMIT = {("CumulativeWorker", "cost", 1)}
+
+
+def _literal_values(cls, field):
+    import typing
+    ann = cls.model_fields[field].annotation
+    return list(typing.get_args(ann)) if typing.get_origin(ann) is typing.Literal else []
+
+
+def _sweep_cases():
+    import inspect
+    from processscheduler.base import BaseModelWithJson
+    cases = []
+    for cname in sorted(dir(ps)):
+        cls = getattr(ps, cname)
+        if not (inspect.isclass(cls) and issubclass(cls, BaseModelWithJson)) or cname in SWEEP_SKIP:
+            continue
+        is_obj = cname.startswith("Objective")
+        req = OBJECTIVE_ARGS.get(cname, []) if is_obj else [f for f, fi in cls.model_fields.items() if fi.is_required()]
+        opt = [] if is_obj and cname not in ("ObjectiveMaximizeIndicator", "ObjectiveMinimizeIndicator") else \
+            [f for f, fi in cls.model_fields.items() if not fi.is_required() and f in OPTIONAL and f not in req]
+        if is_obj:
+            opt = [f for f in opt if f == "weight"]
+        variants = [(None, None)]
+        for f in opt:
+            vals = OPTIONAL[f] if OPTIONAL[f] is not None else _literal_values(cls, f)
+            variants += [(f, v) for v in vals]
+        for f, v in variants:
+            if (cname, f) in SWEEP_ILL:
+                continue
+            if f is not None and OPTIONAL.get(f) and v in OPTIONAL[f] and (cname, f, OPTIONAL[f].index(v)) in SWEEP_LIMIT:
+                continue
+
+            def thunk(cls=cls, cname=cname, req=req, f=f, v=v):
+                e = _env()
+                kw = {r: REQUIRED[r](e) for r in req}
+                if cname.startswith("OptionalTask"):  # documented rule: these bear on optional tasks
+                    kw.update({k: e["o1"] for k in ("task", "task_2") if k in kw})
+                if cname == "IndicatorBounds" and f not in ("lower_bound", "upper_bound"):
+                    kw["lower_bound"] = 0  # documented rule: at least one bound
+                if "name" in cls.model_fields and cname not in OBJECTIVE_ARGS and not cname.startswith("Objective"):
+                    kw["name"] = "swept"
+                if cname in ("NonConcurrentBuffer", "ConcurrentBuffer") and f not in ("initial_level", "final_level"):
+                    kw["initial_level"] = 2
+                if f is not None:
+                    kw[f] = v(e) if callable(v) else v
+                if cname == "VariableDurationTask" and f == "min_duration":
+                    kw["max_duration"] = 6
+                return cls(**kw)
+            tag = "required_only" if f is None else f"{f}={v if not callable(v) else getattr(v, '__name__', 'value')}"
+            cases.append((f"sweep/{cname}/{tag}", thunk, False))
+    # disambiguate identical tags (two callables for one field)
+    seen, out = {}, []
+    for cid, th, exp in cases:
+        seen[cid] = seen.get(cid, 0) + 1
+        out.append((cid if seen[cid] == 1 else f"{cid}#{seen[cid]}", th, exp))
+    return out
+
+
 def rule_ob(cid, thunk, must_raise):
     def fn(ctx, path):
         raised, err = run_case(thunk)
@@ -338,7 +458,7 @@ def registry_ob(cid, thunk, expect):
 
 def replay_rule(desc):
     cid = desc["extra"]["case"]
-    for c, thunk, exp in _rule_cases():
+    for c, thunk, exp in _rule_cases() + _sweep_cases():
         if c == cid:
             raised, err = run_case(thunk)
             print(f"replay: {cid}: raised={raised} ({err}); expected raise={exp}")
@@ -370,6 +490,7 @@ def shapes(tier):
         "regions": [region_ob(p) for p in INT_PARAMS],
         "grid": [grid_ob(p, INT_PARAMS) for p in INT_PARAMS] + [grid_ob(p, GRID_ONLY) for p in GRID_ONLY],
         "rules": [rule_ob(*c) for c in _rule_cases()],
+        "sweep": [rule_ob(*c) for c in _sweep_cases()],
         "registries": [registry_ob(*c) for c in _registry_cases()],
     }
     out = []
